@@ -170,6 +170,36 @@ def shape_scenarios(seed):
     add("killed-while-stalling", steps=[con, {"a": "burst", "t": 40, "o": 1, "reqs": [R(1, dial=False, pol="stall"), R(2, dial=False, rdelay=300)]},
                                         {"a": "kill", "t": 100, "o": 2}])
     add("killed-while-dialing", steps=[{"a": "burst", "o": 1, "reqs": [R(1), R(2)]}, {"a": "kill", "t": 1, "o": 2}])
+    # another peer's connection closes while a request's substream is still being opened (node 1 requests, node 2 is
+    # the peer whose connection closes, node 3 the healthy peer whose substream negotiation is held up)
+    three = dict(nodes=[{}, {}, {}], links=[L(1, 2), L(1, 3)], sub_ms=3000, keep_alive_ms=60000, timeout_ms=600)
+    c12, c13_ = {"a": "connect", "from": 1, "to": 2}, {"a": "connect", "from": 1, "to": 3}
+    for hold in (150, 400):
+        # the healthy peer is frozen (no task of it is scheduled), the other peer is dropped, the healthy one is released
+        add("other-peer-closes-while-opening-kill-%d" % hold, epilogue="kill", **three,
+            steps=[c12, c13_, {"a": "freeze_node", "t": 40, "o": 3},
+                   {"a": "burst", "t": 10, "o": 1, "reqs": [R(1, to=3, dial=False), R(2, to=3)]},
+                   {"a": "kill", "t": hold // 3, "o": 2}, {"a": "thaw_node", "t": hold, "o": 3},
+                   {"a": "burst", "t": 300, "o": 1, "reqs": [R(3, to=3, dial=False)]}])
+        # ... the other peer's keep-alive expires instead (its side closes the idle connection)
+        add("other-peer-closes-while-opening-keepalive-%d" % hold, epilogue="kill",
+            **dict(three, nodes=[{}, {"keep_alive_ms": 250}, {}]),
+            steps=[c13_, c12, {"a": "freeze_node", "t": 100, "o": 3},
+                   {"a": "burst", "t": 10, "o": 1, "reqs": [R(1, to=3, dial=False), R(2, to=3)]},
+                   {"a": "thaw_node", "t": 300 + hold, "o": 3},
+                   {"a": "burst", "t": 300, "o": 1, "reqs": [R(3, to=3, dial=False)]}])
+        # ... the bytes towards the healthy peer are held by the proxy in front of it (tcp / ws)
+        add("other-peer-closes-while-opening-proxy-%d" % hold, epilogue="kill", **dict(three, links=[L(1, 2), L(1, 3, "proxy")]),
+            steps=[c12, c13_, {"a": "freeze", "t": 40, "from": 1, "to": 3},
+                   {"a": "burst", "t": 10, "o": 1, "reqs": [R(1, to=3, dial=False), R(2, to=3)]},
+                   {"a": "kill", "t": hold // 3, "o": 2}, {"a": "thaw", "t": hold, "from": 1, "to": 3},
+                   {"a": "burst", "t": 300, "o": 1, "reqs": [R(3, to=3, dial=False)]}])
+        # the mirror: the peer closes while a request to that very peer is opening - it fails exactly once, the
+        # request to the healthy peer is served
+        add("same-peer-closes-while-opening-%d" % hold, epilogue="kill", **three,
+            steps=[c12, c13_, {"a": "freeze_node", "t": 40, "o": 2},
+                   {"a": "burst", "t": 10, "o": 1, "reqs": [R(1, to=2, dial=False), R(2, to=3, dial=False, rdelay=hold), R(3, to=2)]},
+                   {"a": "kill", "t": hold // 2, "o": 2}, {"a": "burst", "t": hold, "o": 1, "reqs": [R(4, to=3, dial=False)]}])
     # short keep-alive: the connection is closed under the protocol's feet, later requests redial
     add("keepalive-redial", keep_alive_ms=200,
         steps=[{"a": "burst", "o": 1, "reqs": [R(1)]}, {"a": "burst", "t": 700, "o": 1, "reqs": [R(2)]},
@@ -218,10 +248,45 @@ def random_bound_scenario(sid, rnd, tr="tcp"):
                 epilogue=rnd.choice(["", "kill"]), linger_ms=150)
 
 
+def random_other_peer_scenario(sid, rnd, tr="tcp"):
+    """requests whose substreams are being opened towards a held-up peer while connections of other peers close"""
+    n = rnd.choice([3, 3, 4])
+    held = rnd.randrange(2, n + 1)
+    hold = rnd.choice([100, 200, 350, 500])
+    nodes = [{} for _ in range(n)]
+    links = [L(1, p) for p in range(2, n + 1)]
+    steps = [{"a": "connect", "from": 1, "to": p} for p in range(2, n + 1)]
+    steps.append({"a": "freeze_node", "t": 40, "o": held})
+    k, reqs = 0, []
+    for _ in range(rnd.choice([1, 2, 3])):
+        k += 1
+        reqs.append(R(k, to=held, dial=rnd.random() < 0.5, size=rnd.choice([HDR, 64, 600]), rsize=rnd.choice([8, 32, 300])))
+    if rnd.random() < 0.5:
+        k += 1
+        other = rnd.choice([p for p in range(2, n + 1) if p != held])
+        reqs.append(R(k, to=other, dial=False, pol=rnd.choice(["answer", "stall", "kill"]), rdelay=rnd.choice([0, 50, 200])))
+    rnd.shuffle(reqs)
+    steps.append({"a": "burst", "t": 10, "o": 1, "reqs": reqs})
+    spent = 0
+    for p in range(2, n + 1):
+        if p != held and rnd.random() < 0.8:
+            t = rnd.choice([0, 10, 40, 100])
+            spent += t
+            steps.append({"a": "kill", "t": t, "o": p})
+    steps.append({"a": "thaw_node", "t": max(hold - spent, 10), "o": held})
+    k += 1
+    steps.append({"a": "burst", "t": rnd.choice([50, 300]), "o": 1, "reqs": [R(k, to=held, dial=rnd.random() < 0.5)]})
+    return dict(id=sid, seed=rnd.randrange(1 << 30), src="rand-other-peer", transport=tr, timeout_ms=rnd.choice([500, 800]),
+                conn_ms=1500, sub_ms=3000, max_size=1024, keep_alive_ms=60000, perturb=rnd.choice([0, 1, 2, 3]),
+                nodes=nodes, links=links, steps=steps, epilogue=rnd.choice(["", "kill"]), linger_ms=150)
+
+
 def random_scenario(sid, rnd, tr="tcp"):
     quic = tr == "quic"
     if rnd.random() < 0.12:
         return random_bound_scenario(sid, rnd, tr)
+    if rnd.random() < 0.08:
+        return random_other_peer_scenario(sid, rnd, tr)
     timeout = rnd.choice([300, 400, 500, 800, 1000])
     max_size = rnd.choice([256, 1024, 1024, 4096, 70000])
     nresp = rnd.choice([1, 1, 2])
